@@ -15,7 +15,7 @@ from __future__ import annotations
 
 import ast
 
-from .common import GEN, HEADER, lean_list, lean_str, parse, write_if_changed
+from .common import GEN, HEADER, REPO, lean_list, lean_str, parse, write_if_changed
 
 DTYPES = [
     "bool", "int8", "int16", "int32", "int64", "uint8", "uint16", "uint32", "uint64",
@@ -503,6 +503,15 @@ def capture_ast() -> dict:
                             found.append(classify(sub.args[2], env))
         mode = found[0] if found else "alias"  # no setattr: the caller's list stays in the field
     out["BaseVars.variadic"] = mode
+    # Tensor(dtype, shape): the shape list is translated element by element into an immutable Shape
+    try:
+        TS = _class_defs(parse("src/spox/_type_system.py"))
+        ti = _method(TS["Tensor"], "__init__")
+        out["Tensor(shape)"] = _stored_mode(ti, "shape", lambda node: (
+            node.args[2] if isinstance(node.func, ast.Attribute) and node.func.attr == "__setattr__" and len(node.args) == 3
+            and isinstance(node.args[1], ast.Constant) and node.args[1].value == "_shape" else None))
+    except Exception:  # noqa: BLE001
+        out["Tensor(shape)"] = "opaque"
     # module-level constructors
     G = parse("src/spox/_graph.py")
     for fn in G.body:
@@ -603,6 +612,8 @@ def capture_observed() -> dict:
     for name, v in (("AttrFloat32", 1.5), ("AttrInt64", 3), ("AttrString", "s"), ("AttrDtype", np.dtype("int64")),
                     ("AttrType", Tensor(np.float32, (2,)))):
         attempt(name, lambda name=name, v=v: "alias" if getattr(A, name)(v, "v")._value is v else "copy")
+    shp = [2, "N", None]
+    attempt("Tensor(shape)", lambda: _observe_flat(Tensor(np.float32, shp).shape, shp))
     attempt("AttrGraph", lambda: "alias")  # a Graph is a frozen dataclass; nothing to observe by mutation
     attempt("Attr.__init__", lambda: "alias" if A.AttrInt64(12345678901, "v")._value is not None else "opaque")
     a, b = argument(Tensor(np.float32, (2,))), argument(Tensor(np.float32, (2,)))
@@ -629,6 +640,7 @@ KINDS = {
     "AttrTensor": "flat", "AttrFloat32s": "flat", "AttrInt64s": "flat", "AttrStrings": "flat",
     "AttrTensors": "nest", "_AttrIterable.maybe": "flat", "BaseVars.variadic": "flat",
     "initializer": "flat", "arguments(default)": "flat", "constant(value)": "flat", "constant(value_ints)": "flat",
+    "Tensor(shape)": "flat",
     "const(ndarray)": "flat", "const(nested list)": "nest",
     "_future.initializer(ndarray)": "flat", "_future.initializer(nested list)": "nest",
 }
@@ -653,7 +665,20 @@ def capture_table(errors: dict) -> list:
     return rows, o.get("_errors", {})
 
 
-def emit_capture(rows: list) -> str:
+def discovery() -> dict:
+    try:
+        sites = discover_sites()
+    except Exception as e:  # noqa: BLE001
+        sites = [f"<site discovery failed: {type(e).__name__}>"]
+    try:
+        direct = opset_direct_uses()
+    except Exception as e:  # noqa: BLE001
+        direct = [f"<operator-module scan failed: {type(e).__name__}>"]
+    disc = [(x, COVERED.get(x) or ("internal" if x in INTERNAL else "")) for x in sites]
+    return {"discovered": disc, "uncovered": [x for x, r in disc if not r], "opset_direct_uses": direct}
+
+
+def emit_capture(rows: list, disc: dict = None) -> str:
     ls = [
         HEADER.format(
             src="src/spox/{_attributes,_fields,_graph,_future}.py, opset/ai/onnx/v17.py", tool="translator/c10_tables.py"
@@ -670,7 +695,25 @@ def emit_capture(rows: list) -> str:
             f"  ⟨{lean_str(r['site'])}, .{r['kind']}, .{r['ast']}, .{r['observed']}⟩"
         )
     ls.append(",\n".join(body))
-    ls += ["]", "", "end Generated.CaptureTable", ""]
+    ls += ["]", ""]
+    disc = disc or {"discovered": [], "uncovered": ["<no discovery>"], "opset_direct_uses": []}
+    ls += [
+        "/-- Every place found by the AST scan of the core modules where a caller-provided mutable object could be",
+        "    stored (every subclass of Attr; every __init__/__post_init__ storing a container-typed parameter or",
+        "    field; every public function with an array parameter), with the table row that covers it",
+        "    (\"internal\" = no caller-owned object can arrive there, reasons in translator/c10_tables.py). -/",
+        "def discovered : List (String × String) := [",
+        ",\n".join(f"  ({lean_str(a)}, {lean_str(b)})" for a, b in disc["discovered"]),
+        "]",
+        "",
+        "/-- discovered sites without a row: a new class / constructor the table does not know -/",
+        f"def uncoveredSites : List String := {lean_list([lean_str(x) for x in disc['uncovered']])}",
+        "",
+        "/-- operator-module constructor parameters (arrays / iterables) used otherwise than as an argument of an",
+        "    Attr class, an Inputs dataclass or np.array -/",
+        f"def opsetDirectUses : List String := {lean_list([lean_str(x) for x in disc['opset_direct_uses'][:20]])}",
+        "",
+        "end Generated.CaptureTable", ""]
     return "\n".join(ls)
 
 
@@ -690,8 +733,208 @@ def generate() -> dict:
               "validate_catch_all": False, "dtype_catches": [], "dtype_spec_catches": []}
     write_if_changed(GEN / "AttrKinds.lean", emit_attr_kinds(ak))
     rows, errs = capture_table(errors)
-    write_if_changed(GEN / "Capture.lean", emit_capture(rows))
-    return {"tensor_enum": te, "attr_kinds": ak, "capture": rows, "capture_probe_errors": errs, "errors": errors}
+    disc = discovery()
+    write_if_changed(GEN / "Capture.lean", emit_capture(rows, disc))
+    return {"tensor_enum": te, "attr_kinds": ak, "capture": rows, "capture_probe_errors": errs, "errors": errors,
+            "discovery": disc}
+
+
+# ------------------------------------------------------------------ discovery of capture sites
+ARRAY_MARK = ("ndarray", "ArrayLike")
+CONTAINER_MARK = ARRAY_MARK + ("Iterable", "Sequence", "List", "list", "Dict", "dict", "Set", "SimpleShape")
+CLASS_MODULES = ["_attributes.py", "_fields.py", "_type_system.py", "_var.py", "_value_prop.py", "_node.py",
+                 "_internal_op.py", "_graph.py", "_standard.py"]
+FUNC_MODULES = ["_graph.py", "_future.py", "_public.py", "_internal_op.py"]
+
+# discovered site -> row of the capture table that covers it
+COVERED = {
+    "_attributes.Attr.__init__": "Attr.__init__",
+    "_attributes.AttrTensor.__init__": "AttrTensor",
+    "_attributes._AttrIterable.__init__": "AttrInt64s",
+    "_attributes.AttrTensors.__init__": "AttrTensors",
+    "_fields.BaseVars.__post_init__": "BaseVars.variadic",
+    "_graph.initializer(arr)": "initializer",
+    "_graph.arguments_dict(kwargs)": "arguments(default)",
+    "_graph.arguments(kwargs)": "arguments(default)",
+    "_graph.enum_arguments(infos)": "arguments(default)",
+    "_future.initializer(value)": "_future.initializer(ndarray)",
+    "_type_system.Tensor.__init__": "Tensor(shape)",
+}
+for _c in CLASSES:
+    COVERED[f"_attributes.{_c}"] = _c
+# discovered site -> why no caller-owned mutable object can arrive there
+INTERNAL = {
+    "_attributes._AttrIterable": "abstract base of the list attribute classes (each subclass has its own row)",
+    "_graph.Graph.__post_init__": "the results dict is made by results(**kwargs) / dataclasses.replace, never handed over by the caller; arguments are a tuple",
+    "_node.Node.__init__": "receives spox's own Attributes/Inputs dataclasses (their fields are the sites)",
+    "_var.Var.__init__": "constructed by Node only",
+    "_value_prop.PropValue.__post_init__": "values come from spox's own stored copies or from the backend, not from the caller",
+    "_standard.StandardNode.__init__": "same as Node.__init__",
+    "_attributes._Ref.__init__": "built by spox's function machinery around an existing Attr (already captured)",
+}
+
+
+def _ann(a):
+    return ast.unparse(a.annotation) if getattr(a, "annotation", None) is not None else None
+
+
+def _bases(c: ast.ClassDef):
+    out = []
+    for b in c.bases:
+        if isinstance(b, ast.Name):
+            out.append(b.id)
+        elif isinstance(b, ast.Subscript) and isinstance(b.value, ast.Name):
+            out.append(b.value.id)
+        elif isinstance(b, ast.Attribute):
+            out.append(b.attr)
+    return out
+
+
+def discover_sites() -> dict:
+    """Every place of the core modules where a caller-provided mutable could be stored:
+    (1) every subclass of Attr; (2) every __init__ with a container-typed / untyped / TypeVar parameter that it
+    stores, every dataclass __post_init__ of a class with container-typed fields; (3) every module-level
+    function with an array-typed parameter; (4) in the operator modules, every array/iterable-typed constructor
+    parameter must flow only into Attr classes, Inputs dataclasses or np.array."""
+    sites = []
+    for rel in CLASS_MODULES:
+        try:
+            mod = parse("src/spox/" + rel)
+        except Exception:  # noqa: BLE001
+            continue
+        stem = rel[:-3]
+        classes = {n.name: n for n in ast.walk(mod) if isinstance(n, ast.ClassDef)}
+        if rel == "_attributes.py":
+            def is_attr(name, seen=()):
+                if name == "Attr":
+                    return True
+                c = classes.get(name)
+                return bool(c) and name not in seen and any(is_attr(b, seen + (name,)) for b in _bases(c))
+            for name in classes:
+                if name != "Attr" and is_attr(name):
+                    sites.append(f"{stem}.{name}")
+        for name, c in classes.items():
+            fields = [(n.target.id, ast.unparse(n.annotation)) for n in c.body
+                      if isinstance(n, ast.AnnAssign) and isinstance(n.target, ast.Name)]
+            for m in c.body:
+                if not isinstance(m, ast.FunctionDef):
+                    continue
+                if m.name == "__init__":
+                    params = [a for a in m.args.args[1:] + m.args.kwonlyargs]
+                    cand = [a.arg for a in params
+                            if _ann(a) is None or any(k in _ann(a) for k in CONTAINER_MARK) or "[T" in (_ann(a) or "") or "Optional[Base" in (_ann(a) or "")]
+                    stores = False
+                    cand = list(cand)
+                    for node in ast.walk(m):  # locals computed from a candidate carry it on
+                        if isinstance(node, ast.Assign) and len(node.targets) == 1 and isinstance(node.targets[0], ast.Name) \
+                                and any(isinstance(x, ast.Name) and x.id in cand for x in ast.walk(node.value)):
+                            cand.append(node.targets[0].id)
+                    for node in ast.walk(m):
+                        if isinstance(node, (ast.Assign, ast.AnnAssign)):
+                            tgts = node.targets if isinstance(node, ast.Assign) else [node.target]
+                            if any(isinstance(t, ast.Attribute) and _is_name(t.value, "self") for t in tgts) and node.value is not None \
+                                    and any(isinstance(x, ast.Name) and x.id in cand for x in ast.walk(node.value)):
+                                stores = True
+                        if isinstance(node, ast.Call) and any(isinstance(x, ast.Name) and x.id in cand for a in list(node.args) + [k.value for k in node.keywords] for x in ast.walk(a)):
+                            f = node.func
+                            if (isinstance(f, ast.Attribute) and f.attr in ("__init__", "__setattr__")) or getattr(f, "id", None) == "setattr":
+                                stores = True
+                    if cand and stores:
+                        sites.append(f"{stem}.{name}.__init__")
+                if m.name == "__post_init__":
+                    if any(any(k in t for k in CONTAINER_MARK) for _, t in fields) or any(
+                            isinstance(x, ast.Call) and getattr(x.func, "id", None) == "getattr" for x in ast.walk(m)):
+                        sites.append(f"{stem}.{name}.__post_init__")
+    for rel in FUNC_MODULES:
+        try:
+            mod = parse("src/spox/" + rel)
+        except Exception:  # noqa: BLE001
+            continue
+        for fn in mod.body:
+            if isinstance(fn, ast.FunctionDef) and not fn.name.startswith("_"):
+                ps = fn.args.args + fn.args.kwonlyargs + ([fn.args.vararg] if fn.args.vararg else []) + ([fn.args.kwarg] if fn.args.kwarg else [])
+                for a in ps:
+                    if _ann(a) and any(k in _ann(a) for k in ARRAY_MARK):
+                        sites.append(f"{rel[:-3]}.{fn.name}({a.arg})")
+    return sites
+
+
+OK_SINKS = ("Inputs", "maybe", "array", "isinstance", "len", "subgraph")
+
+
+def opset_direct_uses() -> list:
+    """Operator-module constructor parameters typed as arrays / iterables that are used otherwise than as an
+    argument of an Attr class, an Inputs dataclass or np.array (where a caller's object could be kept)."""
+    bad = []
+    root = REPO / "src" / "spox" / "opset"
+    import hashlib
+    import json
+
+    cache_file = GEN.parent.parent.parent / ".work" / "c10_opset_scan.json"  # keyed by file *content* hash only
+    try:
+        cache = json.loads(cache_file.read_text())
+    except Exception:  # noqa: BLE001
+        cache = {}
+    new_cache = {}
+    for path in sorted(root.rglob("v*.py")):
+        text = path.read_text()
+        key = hashlib.sha1((SCAN_VERSION + text).encode()).hexdigest()
+        if key in cache:
+            new_cache[key] = cache[key]
+            bad += cache[key]
+            continue
+        found = _scan_opset_module(path, root, text)
+        new_cache[key] = found
+        bad += found
+    try:
+        cache_file.parent.mkdir(exist_ok=True)
+        cache_file.write_text(json.dumps(new_cache))
+    except Exception:  # noqa: BLE001
+        pass
+    return bad
+
+
+SCAN_VERSION = "2"
+
+
+def _scan_opset_module(path, root, text) -> list:
+    bad = []
+    if True:
+        try:
+            mod = ast.parse(text)
+        except Exception:  # noqa: BLE001
+            return [f"{path.name}: unparsable"]
+        for fn in mod.body:
+            if not isinstance(fn, ast.FunctionDef):
+                continue
+            ps = {a.arg for a in fn.args.args + fn.args.kwonlyargs
+                  if _ann(a) and any(k in _ann(a) for k in ARRAY_MARK + ("Iterable", "Sequence", "List"))}
+            if not ps:
+                continue
+            parent = {}
+            for node in ast.walk(fn):
+                for ch in ast.iter_child_nodes(node):
+                    parent[ch] = node
+            for node in ast.walk(fn):
+                if isinstance(node, ast.Name) and node.id in ps and isinstance(node.ctx, ast.Load):
+                    p = parent.get(node)
+                    while isinstance(p, (ast.keyword, ast.Starred)):
+                        p = parent.get(p)
+                    ok = False
+                    # read at the call only: iterated by a comprehension (possibly a slice of it) to compute types
+                    q = p
+                    if isinstance(q, ast.Subscript) and q.value is node:
+                        q = parent.get(q)
+                    if isinstance(q, ast.comprehension) and (q.iter is node or q.iter is p):
+                        ok = True
+                    if isinstance(p, ast.Call):
+                        f = p.func
+                        fname = f.attr if isinstance(f, ast.Attribute) else getattr(f, "id", "")
+                        ok = ok or fname.startswith("Attr") or fname in OK_SINKS
+                    if not ok:
+                        rel = path.relative_to(root)
+                        bad.append(f"{rel}:{fn.name}({node.id}) line {node.lineno}")
+    return bad
 
 
 if __name__ == "__main__":
